@@ -236,6 +236,7 @@ type c16Session struct {
 	rx      []byte
 	servEnd bool
 	q       func()
+	holding bool
 }
 
 func newC16Session() *c16Session {
@@ -295,7 +296,9 @@ func newC16Session() *c16Session {
 					sc.reads++
 					sc.mu.Unlock()
 					if n > 0 {
-						conn.Write([]byte(fmt.Sprintf("ack %d bytes;", n)))
+						// echo from the buffer the next Read will overwrite, as io.Copy, bufio and
+						// the echo service do: Write must not keep a reference to it
+						conn.Write(buf[:n])
 					}
 					if err != nil {
 						sc.mu.Lock()
@@ -323,7 +326,9 @@ func (s *c16Session) send(f frame) {
 		s.cli.Write(f.body)
 	}
 	s.q()
-	s.drain()
+	if !s.holding {
+		s.drain()
+	}
 }
 
 func (s *c16Session) drain() {
@@ -374,7 +379,14 @@ type c16Env struct {
 	teardown    func() // before the harness closes the transport at the end
 	count       func(k string, n int64)
 	outcome     func(parts ...string)
+	hold        *c16Hold
 }
+
+// c16Hold makes the agent a slow reader for the messages [from, to): it stops reading replies and
+// its receive window holds `window` bytes, so the session's reply pump blocks in a transport write.
+// Only used under the fine-grain scheduler: with a blocked pump the session loop and the service
+// wait for each other on the connection's mutex, which is not a durable block for synctest.
+type c16Hold struct{ from, to, window int }
 
 // fgEnter names the calling goroutine for the fine-grain scheduler (no-op in the ordinary build).
 var fgEnter = func(fn, tag string) {}
@@ -405,9 +417,27 @@ func c16Run(c c16Env, name string, vcs []*vconn, order []c16Msg, disconnectAfter
 	sentData := map[int][]byte{}
 	sentEOF := map[int]bool{}
 	helloed := map[int]bool{}
+	release := func() {
+		if s.holding {
+			s.holding = false
+			s.cli.SetWindow(0)
+			s.drain()
+			c.quiesce()
+			s.drain()
+		}
+	}
 	for i, m := range order {
 		if disconnectAfter >= 0 && i == disconnectAfter {
 			break
+		}
+		if c.hold != nil && i == c.hold.to {
+			release()
+		}
+		if c.hold != nil && i == c.hold.from {
+			c.quiesce()
+			s.drain()
+			s.cli.SetWindow(c.hold.window)
+			s.holding = true
 		}
 		vc := vcs[m.v]
 		switch m.kind {
@@ -432,6 +462,7 @@ func c16Run(c c16Env, name string, vcs []*vconn, order []c16Msg, disconnectAfter
 		c.Count("transitions", 1)
 	}
 	c.quiesce()
+	release()
 	if disconnectAfter >= 0 {
 		s.cli.Close()
 		c.quiesce()
@@ -514,16 +545,14 @@ func c16Run(c c16Env, name string, vcs []*vconn, order []c16Msg, disconnectAfter
 			continue
 		}
 		key := vc.laddr.String() + "|" + vc.raddr.String()
-		// the stub acknowledges every read; the total acknowledged must equal the bytes sent for this connection
-		total := 0
-		for _, part := range strings.Split(string(replies[key]), ";") {
-			var n int
-			if _, err := fmt.Sscanf(part, "ack %d bytes", &n); err == nil {
-				total += n
+		// the stub echoes every read: what comes back tagged with this connection's addresses must be
+		// exactly its bytes, in order
+		if !bytes.Equal(replies[key], sentData[v]) {
+			first := 0
+			for first < len(replies[key]) && first < len(sentData[v]) && replies[key][first] == sentData[v][first] {
+				first++
 			}
-		}
-		if total != len(sentData[v]) {
-			c.Violationf("C16:session:reply-routing", "%s: replies tagged with connection %d's addresses acknowledge %d bytes, it was sent %d", desc(), v, total, len(sentData[v]))
+			c.Violationf("C16:session:reply-routing", "%s: the service echoed connection %d's %d bytes; %d bytes came back tagged with its addresses (first difference at %d)", desc(), v, len(sentData[v]), len(replies[key]), first)
 		}
 	}
 	for k := range replies {
